@@ -17,9 +17,11 @@ from .core import Case, cD, cZ, clist, cbool
 
 ID = "C09"
 PROPS_FILE = "Props/C09.v"
-IMPORTS = "From Verde Require Import Lib.QList Model.BlockReduce."
+IMPORTS = "From Verde Require Import Lib.QList Model.BlockReduce Model.Weights Model.BlockGeo."
 SHARD = 40
-RULE = ("point clouds of 1..60 points (uniform, clustered so that interior blocks stay empty, regular grids given as "
+RULE = ("a fixed geometry stream (c09.geometry_configs: spacings at exact half-integer ratios extent/spacing 0.5, 1.5, 2.5, 4.5 "
+        "independently in both directions, adjust=region and adjust=spacing with non-dividing scalar and (north, east) spacings, shapes; region "
+        "given and inferred; 14-point clouds holding the region corners) followed by: point clouds of 1..60 points (uniform, clustered so that interior blocks stay empty, regular grids given as "
         "2-D arrays, every point its own block, all points in one block) on a dyadic lattice; data of 1..3 components "
         "with pairwise distinct values; weights absent or one array per component whose pattern is chosen independently "
         "per component from {uniform 1, another uniform constant, varying, varying with zeros (never a whole block)} - all "
@@ -36,6 +38,7 @@ RULE = ("point clouds of 1..60 points (uniform, clustered so that interior block
         "get_params() of the instance is compared before and after filter(): a written constructor parameter makes holds false. A case is non-trivial when the call returns, at least one "
         "block has >= 2 members and there are >= 2 non-empty blocks; distinct = distinct full input.")
 ASSUMPTIONS = [
+    "block labels and centres are observed from verde.block_split on the arguments the filter uses, and are themselves checked in coqc against the documented block grid computed from region / spacing / shape / adjust by the C07/C08 coordinate models (Model/BlockGeo.v: block count with round-half-to-even, adjusted spacing or adjusted region, centre coordinates within 2^-40 x scale, every point in a block that contains it up to 2^-30 x scale at shared edges); skipped when the horizontal coordinates are float32 or extent/spacing is within 2^-30 of a rounding tie without being one",
     "pandas DataFrame.groupby(key).aggregate(f) calls f once per distinct key on the rows carrying it (in row order) and returns the results sorted by key; numpy.unique returns the sorted distinct labels - modelled by the executable specifications groupby / ukeys and re-validated against the implementation on every run",
     "block labels and block centres are taken from verde.block_split (observed on the same arguments); block geometry is outside this property",
     "floats are read as the rationals they denote; reductions are computed exactly in Q and compared with the floating-point results within relative 2^-40 of the largest magnitude in the column (block centres: exactly)",
@@ -88,6 +91,25 @@ def _distinct_values(rnd, count, q, lo, hi):
     """count distinct multiples of 1/q in [lo, hi], in random order"""
     pool = rnd.sample(range(int(lo * q), int(hi * q) + 1), count)
     return [p / q for p in pool]
+
+
+def geo_term(kwc, coords, split_ok):
+    """the block-defining arguments for the model-side geometry check (Model/BlockGeo.v): None when block_split
+    raised or the horizontal coordinates are single precision (block centres are then float32)"""
+    if not split_ok or any(np.asarray(c).dtype == np.float32 for c in coords[:2]):
+        return "None"
+    sp = kwc.get("spacing")
+    if sp is None:
+        csp = "None"
+    else:
+        sp = list(sp) if isinstance(sp, (tuple, list)) else [sp]
+        csp = "(Some %s)" % clist([cD(float(v)) for v in sp])
+    reg = kwc.get("region")
+    creg = "None" if reg is None else "(Some %s)" % clist([cD(float(v)) for v in reg])
+    shp = kwc.get("shape")
+    cshp = "None" if shp is None else "(Some (%s, %s))" % (cZ(shp[0]), cZ(shp[1]))
+    adj = {"spacing": 0, "region": 1}.get(kwc.get("adjust", "spacing"), 2)
+    return "(Some (%s, %s, %s, %s))" % (csp, cZ(adj), creg, cshp)
 
 
 LAYOUTS = ["C", "F", "TT", "strided", "neg"]
@@ -210,10 +232,12 @@ def make_case(vd, red, coords, data, weights, kw, kind, expect_valid=True):
         blocks, labels = vd.block_split(tuple(coords), **split_kw)
         labels = [int(v) for v in np.ravel(labels)]
         centres = (np.ravel(blocks[0]), np.ravel(blocks[1]))
+        split_ok = True
     except Exception:
         # malformed coordinates: no labels to give; the model rejects on the shapes alone
         labels = list(range(np.asarray(coords[0]).size))
         centres = (np.zeros(1), np.zeros(1))
+        split_ok = False
     obs = observe(vd, red, coords, data, weights, kwc, bool(kw.get("_tuple1")), bool(kw.get("_twice")))
     tags = list(kw.get("_layouts") or []) + ["C"] * 16
     tc, td, tw = tags[:len(coords)], tags[len(coords):len(coords) + len(data)], tags[len(coords) + len(data):]
@@ -224,8 +248,8 @@ def make_case(vd, red, coords, data, weights, kw, kind, expect_valid=True):
         cobs = "None"
     else:
         cobs = "None" if expect_valid else "(Some ([], []))"
-    term = "c09_case %s %s %s %s %s %s %s (%s, %s) %s %s %s %s" % (
-        kw.get("_epsd", "eps40"), kw.get("_epsc", "eps40"), red, clist([cZ(v) for v in labels]), _cdll(coords), _cdll(data), cw,
+    term = "c09_case_geo %s %s %s %s %s %s %s %s (%s, %s) %s %s %s %s" % (
+        geo_term(kwc, coords, split_ok), kw.get("_epsd", "eps40"), kw.get("_epsc", "eps40"), red, clist([cZ(v) for v in labels]), _cdll(coords), _cdll(data), cw,
         _cdl(centres[0]), _cdl(centres[1]),
         cbool(kwc.get("center_coordinates", False)), cbool(kwc.get("drop_coords", True)), cbool(bool(obs[-1])), cobs)
     counts = {}
@@ -518,6 +542,85 @@ def edge_cases(rnd, vd):
     return out
 
 
+def geometry_configs(full=True):
+    """block-defining arguments on the decision boundaries of the documented rule, each with a cloud of 14 points
+    (the four corners of the region, so that an inferred region is the same one, interior points, points on block
+    edges): returns [(east, north, block kwargs)].
+    * spacings at EXACT half-integer ratios extent / spacing = 0.5, 1.5, 2.5, 4.5 (Python rounds these to the even
+      neighbour: 0 -> one block, 2, 2, 4), independently in both directions, region given and inferred, both adjust modes
+    * adjust="region" / "spacing" with spacings that do not divide the region (blocks exactly the spacing wide over
+      the adjusted region vs. the whole region divided evenly), scalar and (north, east) spacings
+    * shape=(n_north, n_east)"""
+    out = []
+    fr = [0.0, 1.0, 0.21875, 0.59375, 0.40625, 0.78125, 0.09375, 0.90625, 0.5, 0.34375, 0.65625, 0.96875, 0.03125, 0.71875]
+    fn = [0.0, 1.0, 0.84375, 0.15625, 0.53125, 0.28125, 0.46875, 0.71875, 0.96875, 0.0625, 0.375, 0.625, 0.90625, 0.5]
+    fe = [0.0, 1.0, 1.0, 0.0] + fr[4:]
+    fn2 = [0.0, 1.0, 0.0, 1.0] + fn[4:]
+
+    def cloud(w, e, s_, n):
+        return (np.array([w + f * (e - w) for f in fe]), np.array([s_ + f * (n - s_) for f in fn2]))
+
+    ratios = [0.5, 1.5, 2.5, 4.5]
+    k = 0
+    for rx in ratios:
+        for ry in ratios:
+            for sp, (w, s_) in ((2.0, (0.0, 0.0)), (0.5, (-3.0, 1.5))):
+                if not full and (k % 2):
+                    k += 1
+                    continue
+                k += 1
+                e, n = w + rx * sp, s_ + ry * sp
+                for adjust in ("spacing", "region"):
+                    for given in (True, False):
+                        kw = dict(spacing=sp, adjust=adjust)
+                        if given:
+                            kw["region"] = (w, e, s_, n)
+                        out.append(cloud(w, e, s_, n) + (kw,))
+    # (north, east) spacings with a tie in one direction only
+    for (sn, se), (w, e, s_, n) in (((2.0, 3.0), (0.0, 7.5, 0.0, 5.0)), ((0.5, 2.0), (1.0, 10.0, -1.0, 0.25)),
+                                    ((1.5, 1.0), (0.0, 2.5, 0.0, 6.75)), ((4.0, 0.25), (-1.0, 0.125, 2.0, 12.0))):
+        for adjust in ("spacing", "region"):
+            for given in (True, False):
+                kw = dict(spacing=(sn, se), adjust=adjust)
+                if given:
+                    kw["region"] = (w, e, s_, n)
+                out.append(cloud(w, e, s_, n) + (kw,))
+    # spacings that do not divide the region
+    for sp, (w, e, s_, n) in ((3, (0.0, 10.0, -5.0, 5.0)), ((3, 4), (0.0, 10.0, -5.0, 5.0)), (1.5, (2.0, 9.0, 0.0, 5.0)),
+                              (2.5, (0.0, 8.0, 0.0, 6.0)), ((0.75, 2.0), (-4.0, 3.0, 1.0, 3.0)), (7, (0.0, 10.0, 0.0, 8.0)),
+                              (20, (0.0, 10.0, 0.0, 8.0)), ((1.25, 3.5), (0.0, 10.0, -5.0, 5.0))):
+        for adjust in ("region", "spacing"):
+            for given in (True, False):
+                kw = dict(spacing=sp, adjust=adjust)
+                if given:
+                    kw["region"] = (w, e, s_, n)
+                out.append(cloud(w, e, s_, n) + (kw,))
+    # shapes
+    for shp, (w, e, s_, n) in (((2, 3), (0.0, 10.0, -5.0, 5.0)), ((1, 4), (0.0, 10.0, -5.0, 5.0)), ((5, 1), (2.0, 9.0, 0.0, 5.0)),
+                               ((3, 3), (-4.0, 3.0, 1.0, 3.0)), ((1, 1), (0.0, 8.0, 0.0, 6.0)), ((4, 2), (0.0, 5.0, 0.0, 9.0))):
+        for given in (True, False):
+            kw = dict(shape=shp)
+            if given:
+                kw["region"] = (w, e, s_, n)
+            out.append(cloud(w, e, s_, n) + (kw,))
+    return out
+
+
+def geometry_cases(vd, tier):
+    out = []
+    d = np.array([3.0, -1.5, 7.25, 0.125, 9.0, -4.0, 2.5, 11.0, -6.75, 5.5, 1.0, -2.25, 8.0, 4.75])
+    u = np.arange(14)[::-1] * 2.0 + 7.0
+    w = np.array([1.0, 2.0, 0.5, 3.0, 1.5, 4.0, 0.25, 0.75, 2.5, 1.25, 5.0, 3.5, 2.25, 0.125])
+    reds = ["RMean", "RMedian", "RSum", "RMin", "RAverage"]
+    for k, (e, n, blk) in enumerate(geometry_configs(full=(tier != "quick"))):
+        kw = dict(blk, center_coordinates=(k % 3 != 0), drop_coords=bool(k % 2))
+        if k % 5 == 4:
+            out.append(make_case(vd, "RAverage", [e, n, u], [d, d * d], [w, w[::-1].copy()], kw, "geometry"))
+        else:
+            out.append(make_case(vd, reds[k % 5], [e, n, u], [d], None, kw, "geometry"))
+    return out
+
+
 def malformed(rnd, vd):
     out = []
     A = np.array
@@ -542,6 +645,7 @@ def generate(tier, seed):
         cases.append(make_case(vd, *cfg, kind="edge"))
     for cfg in malformed(rnd, vd):
         cases.append(make_case(vd, *cfg, kind="malformed", expect_valid=False))
+    cases.extend(geometry_cases(vd, tier))
     n_rand = 360 if tier == "quick" else 4200
     for i in range(n_rand):
         weighted = i % 3 == 0
